@@ -82,14 +82,14 @@ partial def showNode : Node → Sx
            .list (bc.map showNode)]
 
 def showEnv (e : Env) : String :=
-  toString e.clips ++ ":" ++ ",".intercalate (e.alphas.map showRat) ++ ":" ++
+  toString e.clips.length ++ ":" ++ ",".intercalate (e.alphas.map showRat) ++ ":" ++
     ",".intercalate (e.transforms.map toString)
 
 /-- Observable items: filled paths and shown texts.  `replaced` and `collapsedBorders` stand for
 sub-procedures that are not modelled (their own fills are not predicted) and are not printed. -/
 def showItem : Item → Option String
   | .paint .text _ c e => some ("t:" ++ toString c ++ ":" ++ showEnv e)
-  | .paint .replaced _ _ _ => none
+  | .paint .replaced _ _ e => some ("r:0:" ++ showEnv e)
   | .paint .collapsedBorders _ _ _ => none
   | .paint _ _ c e => some ("f:" ++ toString c ++ ":" ++ showEnv e)
   | .raise _ => none
